@@ -9,6 +9,7 @@ import (
 	"github.com/ipfs/boxo/internal/verifrt"
 	blocks "github.com/ipfs/go-block-format"
 	cid "github.com/ipfs/go-cid"
+	"github.com/ipfs/go-unixfsnode"
 	dagpb "github.com/ipld/go-codec-dagpb"
 	"github.com/ipld/go-ipld-prime"
 	"github.com/ipld/go-ipld-prime/codec"
@@ -205,6 +206,9 @@ func (n *zz31Node) AsLargeBytes() (io.ReadSeeker, error) { return n.f, nil }
 var zz31Cur *zz31File
 
 func zz31Reify(lnkCtx ipld.LinkContext, n ipld.Node, lsys *ipld.LinkSystem) (ipld.Node, error) {
+	if zz31Cur == nil {
+		return unixfsnode.Reify(lnkCtx, n, lsys) // HarnessC31CAR: the real reifier
+	}
 	return &zz31Node{f: zz31Cur}, nil
 }
 
